@@ -206,10 +206,23 @@ deriving DecidableEq, Repr
 
 structure Cfg where
   rules : List Rule
-  backend : Backend
-  file : Bytes               -- contents of the backend's user file
+  backend : Backend          -- auth.backend in effect (global value; see `Cfg.at`)
+  file : Bytes               -- contents of the user file in effect (auth.backend.*.userfile)
   cacheMaxAge : Option Int   -- auth.cache max-age (none: no cache)
+  /-- backend / user file set inside config conditions (e.g. per `$HTTP["host"]`): mod_auth and
+      mod_authn_file patch their configuration PER REQUEST (mod_auth_patch_config(),
+      mod_authn_file_patch_config()), while auth.require and auth.cache here are the global ones,
+      i.e. the cache is shared by all scopes -/
+  scopes : List (Backend × Bytes) := []
+  cur : Nat := 0             -- index of the scope in effect (recorded in cache entries as a ghost)
 deriving Repr
+
+/-- the configuration in effect for a request whose conditions select scope `s`
+    (an index without entry in `scopes`: no condition overrides the global backend) -/
+def Cfg.at (cfg : Cfg) (s : Nat) : Cfg :=
+  match cfg.scopes[s]? with
+  | some bf => { cfg with backend := bf.1, file := bf.2, cur := s }
+  | none => { cfg with cur := s }
 
 /-- external functions -/
 structure Prims where
@@ -394,6 +407,7 @@ structure Entry where
   kIsUser : Bool        -- ae->k == ae->username
   username : Bytes
   pw : Bytes            -- Basic: password; Digest: H(A1)
+  scope : Nat := 0      -- GHOST (not in the C struct): the backend scope that vouched for the entry
 deriving DecidableEq, Repr
 
 abbrev Cache := List (Int × Entry)
@@ -417,6 +431,7 @@ structure Req where
   path : Bytes        -- r->uri.path
   auth : Option Bytes -- Authorization header
   protocol : Bool     -- HTTP/2: a ":protocol: websocket" pseudo-header was received (HTTP/1.x: false)
+  scope : Nat := 0    -- which backend scope the request's config conditions select (`Cfg.at`; C14)
 deriving Repr
 
 /-- r->h2_connect_ext as mod_auth sees it: RFC 8441 extended CONNECT, i.e. ":protocol" counts
@@ -437,9 +452,9 @@ def basicCreds (vb : Bytes) : Except Refusal (Bytes × Bytes) :=
       | none => .error .s400
       | some up => .ok up
 
-def basicEntry (ridx : Nat) (now : Int) (user pw : Bytes) : Entry :=
+def basicEntry (scope ridx : Nat) (now : Int) (user pw : Bytes) : Entry :=
   { rule := ridx, ctime := now, dalgo := 0, dlen := pw.length, k := user, kIsUser := true,
-    username := user, pw := pw }
+    username := user, pw := pw, scope := scope }
 
 /-- a cache entry usable for Basic: same rule, same user name (http_auth_cache_query()
     plus the collision checks of mod_auth_check_basic()) -/
@@ -457,7 +472,7 @@ def basicAuth (P : Prims) (cfg : Cfg) (ridx : Nat) (rule : Rule) (st : St) (user
     | some e => (st, e.pw = pw)
     | none =>
       if backendBasic P cfg rule user pw then
-        ({ st with cache := st.cache.insert (P.hash ridx user) (basicEntry ridx st.mono user pw) }, true)
+        ({ st with cache := st.cache.insert (P.hash ridx user) (basicEntry cfg.cur ridx st.mono user pw) }, true)
       else (st, false)
 
 /-- mod_auth_check_basic() -/
@@ -756,7 +771,7 @@ def digestHitEntry (c : Cache) (key : Int) (ridx : Nat) (ai : AI) (user : Bytes)
 def digestEntry (cfg : Cfg) (ridx : Nat) (now : Int) (ai : AI) (user : Bytes) (ai2 : AI) : Entry :=
   { rule := ridx, ctime := now, dalgo := ai.dalgo, dlen := ai.dlen, k := user,
     kIsUser := !ai.userhash || (ai.username.length > Extracted.authUserbufSize && cfg.backend = .plain),
-    username := ai2.username, pw := ai2.digest }
+    username := ai2.username, pw := ai2.digest, scope := cfg.cur }
 
 /-- mod_auth_digest_get(): H(A1) from the cache or the backend (`none` = 401) -/
 def digestGet (P : Prims) (cfg : Cfg) (ridx : Nat) (st : St) (ai : AI) : St × Option AI :=
@@ -825,28 +840,40 @@ def handle (P : Prims) (cfg : Cfg) (st : St) (req : Req) : St × Outcome :=
     | .basic => checkBasic P cfg ridx rule st req
     | .digest => checkDigest P cfg ridx rule st req
 
-/-- one second passes; mod_auth_periodic() runs (cleanup when the second is a multiple of 8) -/
-def tick (cfg : Cfg) (st : St) : St :=
-  let mono := st.mono + 1
-  let cache :=
-    match cfg.cacheMaxAge with
-    | some ma => if mono % 8 = 0 then st.cache.cleanup ma mono else st.cache
-    | none => st.cache
-  { cache := cache, mono := mono, epoch := st.epoch + 1 }
+/-- mod_auth_uri_handler() with the per-request configuration patch -/
+def serve (P : Prims) (cfg : Cfg) (st : St) (req : Req) : St × Outcome :=
+  handle P (cfg.at req.scope) st req
 
-def advance (cfg : Cfg) : Nat → St → St
+/-- mod_auth_periodic(): cleanup when the (current) monotonic second is a multiple of 8 -/
+def periodic (cfg : Cfg) (st : St) : St :=
+  match cfg.cacheMaxAge with
+  | some ma => if st.mono % 8 = 0 then { st with cache := st.cache.cleanup ma st.mono } else st
+  | none => st
+
+/-- one iteration of the server loop that finds the monotonic clock `dt` seconds later
+    (server.c:server_main_loop / server_handle_sigalrm): nothing happens when the second has
+    not changed; otherwise the triggers run FIRST — mod_auth_periodic() still sees the old
+    second — and then the clocks are updated, once, whatever the jump -/
+def loopIter (cfg : Cfg) (dt : Nat) (st : St) : St :=
+  if dt = 0 then st
+  else { periodic cfg st with mono := st.mono + dt, epoch := st.epoch + dt }
+
+/-- `n` iterations one second apart (the idle loop: fdevent_poll() times out after 1000 ms) -/
+def secs (cfg : Cfg) : Nat → St → St
   | 0, st => st
-  | n + 1, st => advance cfg n (tick cfg st)
+  | n + 1, st => secs cfg n (loopIter cfg 1 st)
 
 inductive Op
   | request (r : Req)
-  | adv (dt : Nat)            -- dt seconds pass
+  | adv (dt : Nat)            -- ONE loop iteration, dt seconds after the previous one (dt ≥ 2: the loop stalled)
+  | secs (n : Nat)            -- n loop iterations one second apart
   | epochShift (d : Int)      -- the wall clock is stepped (NTP, admin)
 deriving Repr
 
 def step (P : Prims) (cfg : Cfg) (st : St) : Op → St × Option Outcome
-  | .request r => let x := handle P cfg st r; (x.1, some x.2)
-  | .adv dt => (advance cfg dt st, none)
+  | .request r => ((serve P cfg st r).1, some (serve P cfg st r).2)
+  | .adv dt => (loopIter cfg dt st, none)
+  | .secs n => (secs cfg n st, none)
   | .epochShift d => ({ st with epoch := st.epoch + d }, none)
 
 def run (P : Prims) (cfg : Cfg) : St → List Op → St
@@ -947,7 +974,7 @@ def h2Opts : Opts := ⟨9561⟩
 
 /-- the request mod_auth is handed for a decoded HTTP/2 header list; `.error status` when the
     request is answered by the parser (400 / 405 / 431 / 501) and never reaches mod_auth -/
-def h2Request (fields : List (Bytes × Bytes)) : Except Nat Req :=
+def h2Request (o : Opts) (fields : List (Bytes × Bytes)) : Except Nat Req :=
   match h2Fields fields {} with
   | .error s => .error s
   | .ok a0 =>
@@ -958,7 +985,7 @@ def h2Request (fields : List (Bytes × Bytes)) : Except Nat Req :=
       | none => .error 400
       | some m =>
         let special : Bool := (m = ofString "CONNECT" && !a.ext) || (m = ofString "OPTIONS" && a.target = [42])
-        match parseTarget h2Opts special a.target with
+        match parseTarget o special a.target with
         | .error s => .error s
         | .ok t =>
           if a.host.isNone then .error 400
@@ -972,7 +999,7 @@ def h2Request (fields : List (Bytes × Bytes)) : Except Nat Req :=
 def NonceFresh (P : Prims) (rule : Rule) (epoch : Int) (nonce : Bytes) : Prop :=
   (nonceTs nonce).2.head? = some 58 ∧ 0 ≤ (nonceTs nonce).1 ∧ (nonceTs nonce).1 ≤ epoch
   ∧ epoch - (nonceTs nonce).1 ≤ 600
-  ∧ ∀ sec, rule.secret = some sec → ∃ rnd, nonce = appendNonce P (nonceTs nonce).1 (some sec) rnd
+  ∧ ∀ sec, rule.secret = some sec → ∃ rnd, rnd < 2 ^ 32 ∧ nonce = appendNonce P (nonceTs nonce).1 (some sec) rnd
 
 /-- valid Basic credentials for `u` under `rule`: the header decodes to `u:pw`, the
     backend's record for `u` matches `pw` (read as a C string), and the rule authorizes `u` -/
